@@ -130,7 +130,17 @@ def drive(rec):
         # other questions asked of the crystal (neighbouring molecules, supercells, exports) leave its molecules where they are
         import numpy as np
         before = [np.array(m.positions, copy=True) for m in cr.unit_cell_molecules()]
-        for use in (lambda: cr.molecular_shell(mol_idx=0, radius=3.0), lambda: cr.as_P1_supercell((2, 1, 1)),
+        def shell_moved():
+            # the neighbours handed out are the caller's to move (a dimer scan shifts them about)
+            for m in cr.molecular_shell(mol_idx=0, radius=3.5):
+                m.translate(np.array([3.0, -1.0, 2.0]))
+                m.positions *= 1.5
+
+        def dimers_moved():
+            uniq, per = cr.symmetry_unique_dimers(radius=3.0)
+            for dd in uniq:
+                dd.b.translate(np.array([1.0, 2.0, -3.0]))        # (dd.a IS the crystal's unique molecule: left alone)
+        for use in (shell_moved, dimers_moved, lambda: cr.molecular_shell(mol_idx=0, radius=3.0), lambda: cr.as_P1_supercell((2, 1, 1)),
                     lambda: cr.to_translational_symmetry((1, 2, 1)), lambda: cr.to_poscar_string(), lambda: cr.molecule_environments(radius=3.0)):
             try:
                 use()
